@@ -622,6 +622,14 @@ func deriveTripCount(loop *Loop) {
 		return
 	}
 
+	// A bound that is itself computed wraps around in the program but not in the unbounded
+	// arithmetic of the expressions below: with 'var x uint8 = 200', 'for i := x + 100; i < 50; i++'
+	// starts at 44, not at 300, and runs 6 times.
+	if narrowBoundMayWrap(iv.Phi, iv.Start) || narrowBoundMayWrap(iv.Phi, limitSCEV) {
+		loop.TripCount = &SCEVUnknown{Value: nil}
+		return
+	}
+
 	zero := &SCEVConstant{Value: big.NewInt(0)}
 
 	// Verify Direction for Safety
@@ -745,21 +753,16 @@ func deriveTripCount(loop *Loop) {
 	}
 }
 
-// tripCountMayWrap reports whether the counter of 'for i := start; i cmp limit; i += step' may
-// leave the value range of its type before the test fails. A unit step never does (the test
-// fails first). A wider step is checked against a constant limit; with a limit that is not a
-// constant nothing is known, which matters for the narrow types (8, 16, 32 bits) where the
-// end of the range is within reach of ordinary arguments. For '!=' the counter must start on
-// the side of the limit it is moving towards.
-func tripCountMayWrap(phi *ssa.Phi, isNEQ, isUpCounting, isInclusive bool, startC, limitC, stepC *big.Int) bool {
+// counterRange returns the smallest and largest value and the width of the counter's integer type.
+func counterRange(phi *ssa.Phi) (lo, hi *big.Int, bits uint, ok bool) {
 	if phi == nil {
-		return false
+		return nil, nil, 0, false
 	}
-	basic, ok := phi.Type().Underlying().(*types.Basic)
-	if !ok || basic.Info()&types.IsInteger == 0 {
-		return false
+	basic, isBasic := phi.Type().Underlying().(*types.Basic)
+	if !isBasic || basic.Info()&types.IsInteger == 0 {
+		return nil, nil, 0, false
 	}
-	bits := uint(64)
+	bits = 64
 	switch basic.Kind() {
 	case types.Int8, types.Uint8:
 		bits = 8
@@ -768,12 +771,43 @@ func tripCountMayWrap(phi *ssa.Phi, isNEQ, isUpCounting, isInclusive bool, start
 	case types.Int32, types.Uint32:
 		bits = 32
 	}
-	lo, hi := new(big.Int), new(big.Int)
+	lo, hi = new(big.Int), new(big.Int)
 	if basic.Info()&types.IsUnsigned != 0 {
 		hi.Sub(hi.Lsh(big.NewInt(1), bits), big.NewInt(1))
 	} else {
 		lo.Neg(lo.Lsh(big.NewInt(1), bits-1))
 		hi.Sub(hi.Lsh(big.NewInt(1), bits-1), big.NewInt(1))
+	}
+	return lo, hi, bits, true
+}
+
+// narrowBoundMayWrap reports whether a start or limit of a counter narrower than 64 bits is
+// anything but a value of the counter's type taken as it is: a constant inside the range of the
+// type, or an opaque value. An arithmetic expression over such values can leave the range.
+func narrowBoundMayWrap(phi *ssa.Phi, bound SCEV) bool {
+	lo, hi, bits, ok := counterRange(phi)
+	if !ok || bits >= 64 {
+		return false
+	}
+	switch b := bound.(type) {
+	case *SCEVConstant:
+		return b.Value.Cmp(lo) < 0 || b.Value.Cmp(hi) > 0
+	case *SCEVUnknown:
+		return false
+	}
+	return true
+}
+
+// tripCountMayWrap reports whether the counter of 'for i := start; i cmp limit; i += step' may
+// leave the value range of its type before the test fails. A unit step never does (the test
+// fails first). A wider step is checked against a constant limit; with a limit that is not a
+// constant nothing is known, which matters for the narrow types (8, 16, 32 bits) where the
+// end of the range is within reach of ordinary arguments. For '!=' the counter must start on
+// the side of the limit it is moving towards.
+func tripCountMayWrap(phi *ssa.Phi, isNEQ, isUpCounting, isInclusive bool, startC, limitC, stepC *big.Int) bool {
+	lo, hi, bits, ok := counterRange(phi)
+	if !ok {
+		return false
 	}
 	if stepC == nil {
 		return false // no closed form is built without a constant step
